@@ -173,6 +173,16 @@ def run(ctx):
         ctx.count('incoherent')
         ctx.count('ref:' + refsel)
         err = None
+        if rng.random() < 0.5:
+            # the recorded call is not the first with these parameters: an earlier block of the same stream was dedispersed before
+            # (state kept between calls - a cache, a reused buffer - must not change the result)
+            inp['earlier_block'] = True
+            ctx.count('after_an_earlier_block')
+            try:
+                prev = z if z.start_time is None or rng.random() < 0.5 else type(z).like(z, start_time=z.start_time - len(z) * z.dt)
+                pb.incoherent_dedispersion(prev, dm, ref_freq=ref)
+            except ValueError:
+                pass
         try:
             y = pb.incoherent_dedispersion(z, dm, ref_freq=ref)
         except ValueError as e:
